@@ -357,7 +357,7 @@ type startPt struct {
 	idx int
 }
 
-func after(in ssa.Instruction) startPt { return startPt{in.Block(), instrIndex(in) + 1} }
+func after(in ssa.Instruction) startPt  { return startPt{in.Block(), instrIndex(in) + 1} }
 func atBlock(b *ssa.BasicBlock) startPt { return startPt{b, 0} }
 
 var entry = startPt{}
